@@ -6,12 +6,13 @@ Local Open Scope nat_scope.
 
 Section Total.
   Variable e : env.
+  Variable nn : bool.
   Variable F : kind -> N -> option bytes -> Prop.
   Hypothesis Ffin : forall k b txt, F k b txt -> exists t, txt = Some t.
   Notation has_type := (has_type F).
 
   Lemma scalar_total : forall k f v addr, scalar_kind k = true -> has_type (TPrim k) v ->
-    exists res, std_enc e Qraw (S f) (TPrim k) v addr false = SOk res.
+    exists res, std_enc e Qraw nn (S f) (TPrim k) v addr false = SOk res.
   Proof.
     intros k f v addr Hk Hv.
     inversion Hv as [b|k' z Hr|k' bits txt Hk' Hf|s| | | | | |]; subst.
@@ -22,7 +23,7 @@ Section Total.
   Qed.
 
   Lemma enc_list_total : forall f el addr l,
-    (forall x, In x l -> exists a, std_enc e Qraw f el x addr false = SOk a) -> exists items, enc_list e f el addr l = SOk items.
+    (forall x, In x l -> exists a, std_enc e Qraw nn f el x addr false = SOk a) -> exists items, enc_list e nn f el addr l = SOk items.
   Proof.
     intros f el addr. induction l as [|x r IH]; intro H; [exists []; reflexivity|].
     destruct (H x (or_introl eq_refl)) as [a Ha]. destruct (IH (fun y Hy => H y (or_intror Hy))) as [b Hb].
@@ -33,7 +34,7 @@ Section Total.
   Proof. intros l x f Hin H. pose proof (need_list_in l x Hin). lia. Qed.
 
   Lemma scalar_total_q : forall k f v addr q, scalar_kind k = true -> has_type (TPrim k) v ->
-    exists res, std_enc e Qraw (S f) (TPrim k) v addr q = SOk res.
+    exists res, std_enc e Qraw nn (S f) (TPrim k) v addr q = SOk res.
   Proof.
     intros k f v addr q Hk Hv.
     inversion Hv as [b|k' z Hr|k' bits txt Hk' Hf|s| | | | | |]; subst.
@@ -44,10 +45,10 @@ Section Total.
   Qed.
 
   Lemma enc_fields_total : forall sz ph fsall vs f addr, layout_ok e 0 ph sz -> length vs = length ph ->
-    (forall k o t x, nth_error ph k = Some (o, t) -> nth_error vs k = Some x -> exists a, std_enc e Qraw f t x addr false = SOk a) ->
+    (forall k o t x, nth_error ph k = Some (o, t) -> nth_error vs k = Some x -> exists a, std_enc e Qraw nn f t x addr false = SOk a) ->
     (forall k o t x, nth_error ph k = Some (o, t) -> nth_error vs k = Some x -> quotable t = true ->
-       exists a, std_enc e Qraw f t x addr true = SOk a) ->
-    forall fs, Forall (field_ok ph) fs -> forall first, exists items, enc_fields e f (TStruct sz ph fsall) (VStruct vs) addr fs first = SOk items.
+       exists a, std_enc e Qraw nn f t x addr true = SOk a) ->
+    forall fs, Forall (field_ok ph) fs -> forall first, exists items, enc_fields e nn f (TStruct sz ph fsall) (VStruct vs) addr fs first = SOk items.
   Proof.
     intros sz ph fsall vs f addr Hlay Hlen Hall Hallq fs Hfs. induction Hfs as [|fd r (o & Hp & Ho & Hin) Hr IH]; intro first.
     - exists []. reflexivity.
@@ -55,21 +56,21 @@ Section Total.
       destruct (In_nth_error _ _ Hin) as [k Hk].
       assert (Hkl : k < length vs) by (rewrite Hlen; apply nth_error_Some; congruence).
       destruct (nth_error vs k) as [x|] eqn:Hx; [|apply nth_error_None in Hx; lia].
-      rewrite (enc_fields_cons e sz ph fsall Hlay f vs addr fd r first o k x Hp Hoz Hk Hx).
+      rewrite (enc_fields_cons e nn sz ph fsall Hlay f vs addr fd r first o k x Hp Hoz Hk Hx).
       destruct (F_omitempty fd && is_empty_value e (f_type fd) x); [apply IH|].
-      assert (Ha : exists a, std_enc e Qraw f (f_type fd) x addr (F_stringize fd) = SOk a).
+      assert (Ha : exists a, std_enc e Qraw nn f (f_type fd) x addr (F_stringize fd) = SOk a).
       { destruct (F_stringize fd) eqn:Es; [|eapply Hall; eassumption]. destruct (Hsq eq_refl) as [Hqt _]. eapply Hallq; eassumption. }
       destruct Ha as [a Ha]. destruct (IH false) as [rest Hrest]. rewrite Ha, Hrest. cbn [sbind]. eexists; reflexivity.
   Qed.
 
   Theorem std_total : forall t, frag e t -> forall v fuel addr, has_type t v -> need v < fuel ->
-    exists res, std_enc e Qraw fuel t v addr false = SOk res.
+    exists res, std_enc e Qraw nn fuel t v addr false = SOk res.
   Proof.
     induction t using ty_ind'; intros Hf v fuel addr Hv Hn; cbn [frag] in Hf; try contradiction;
       (destruct fuel as [|f]; [lia|]).
     - apply scalar_total; assumption.
     - inversion Hv as [ | | | | | | | |n0 el0 l Hlen Hall| ]; subst.
-      rewrite (std_enc_array e f _ t l addr false Hf).
+      rewrite (std_enc_array e nn f _ t l addr false Hf).
       change (need (VArr l)) with (S (need_list l)) in Hn.
       destruct (enc_list_total f t addr l) as [items Hi].
       { intros x Hx. apply IHt; [exact Hf|apply Hall; exact Hx|eapply need_elem; [exact Hx|lia]]. }
@@ -93,7 +94,7 @@ Section Total.
             - rewrite Hb. cbn [strip]. eexists; reflexivity.
             - destruct Hk; discriminate. }
           destruct Hb as [b Hb]. destruct addr; cbn; rewrite Hb; eexists; reflexivity.
-        * rewrite (std_enc_slice e f t l addr false Hf Esb).
+        * rewrite (std_enc_slice e nn f t l addr false Hf Esb).
           destruct (enc_list_total f t true l) as [items Hi].
           { intros x Hx. apply IHt; [exact Hf|apply Hall; exact Hx|eapply need_elem; [exact Hx|lia]]. }
           rewrite Hi. cbn [sbind]. eexists; reflexivity.
